@@ -133,6 +133,30 @@ pub fn corpus() -> Vec<(String, Vec<u8>)> {
     let mut buf = Vec::new();
     rbx_xml::to_writer_default(&mut buf, &dom, &roots).unwrap();
     out.push(("xml".to_string(), buf));
+    // one value of every type both formats implement, on an instance of an unknown class: every per-type
+    // decoder is then within reach of the truncation / mutation / delivery sweeps
+    {
+        use rand::SeedableRng;
+        let mut rng = rand::rngs::StdRng::seed_from_u64(77);
+        let mut all = WeakDom::new(InstanceBuilder::new("DataModel"));
+        let root = all.root_ref();
+        let target = all.insert(root, InstanceBuilder::new("Folder").with_name("T"));
+        let mut b = InstanceBuilder::new("VerifAllTypes").with_name("A");
+        for ty in crate::gen::BINARY_TYPES.iter() {
+            if let Some(v) = crate::gen::value_of(*ty, &mut rng, &[target], true) {
+                b.add_property(format!("P{:?}", ty), v);
+            }
+        }
+        let a = all.insert(root, b);
+        let mut buf = Vec::new();
+        rbx_binary::Serializer::new().compression_type(CompressionType::None).serialize(&mut buf, &all, &[target, a]).unwrap();
+        out.push(("bin_all".to_string(), buf));
+        let mut buf = Vec::new();
+        let opts = rbx_xml::EncodeOptions::new().property_behavior(rbx_xml::EncodePropertyBehavior::WriteUnknown);
+        if rbx_xml::to_writer(&mut buf, &all, &[target, a], opts).is_ok() {
+            out.push(("xml_all".to_string(), buf));
+        }
+    }
     let mut attrs = Attributes::new();
     attrs.insert("Name".into(), Variant::String("value".into()));
     attrs.insert("Frame".into(), Variant::CFrame(CFrame::new(Vector3::new(1.0, 2.0, 3.0), Matrix3::identity())));
@@ -150,7 +174,7 @@ pub fn decode<R: Read>(target: &str, reader: R) -> (String, String) {
     let r = catch_unwind(AssertUnwindSafe(|| -> Result<String, String> {
         if target.starts_with("bin") {
             rbx_binary::from_reader(reader).map(|d| { let k = d.root().children().to_vec(); pforest(&d, &k).to_string() }).map_err(|e| e.to_string())
-        } else if target == "xml" {
+        } else if target.starts_with("xml") {
             rbx_xml::from_reader_default(reader).map(|d| { let k = d.root().children().to_vec(); pforest(&d, &k).to_string() }).map_err(|e| e.to_string())
         } else {
             Attributes::from_reader(reader).map(|a| crate::pval::attributes(&a, &crate::pval::RefMap::new()).to_string()).map_err(|e| format!("{:?}", e))
@@ -227,6 +251,9 @@ pub fn run_sinkfail(out: &mut dyn Write, step: usize) {
     for (target, data) in corpus() {
         if target == "attr" {
             continue;
+        }
+        if target.ends_with("_all") {
+            continue; // the writers are exercised on the first corpus DOM
         }
         for k in (0..data.len()).step_by(step.max(1)) {
             let id = format!("sink:{}:{}", target, k);
